@@ -19,11 +19,15 @@ func Copy(src, dest string) error {
 // CopyDirectory copy a directory and sub-direcotories and files on local files system.
 func CopyDirectory(src, dest string) error {
 	return filepath.Walk(src, func(path string, info os.FileInfo, err error) error {
-		subPath := path + "/" + info.Name()
-		if info.IsDir() {
-			return MkdirAll(subPath, filesystem.DefaultUnixDirMode)
+		if err != nil {
+			return err
 		}
-		return CopyFile(src+subPath, dest+subPath)
+		// path always starts with src: map it below dest
+		subPath := path[len(src):]
+		if info.IsDir() {
+			return MkdirAll(dest+subPath, filesystem.DefaultUnixDirMode)
+		}
+		return CopyFile(path, dest+subPath)
 	})
 }
 
